@@ -7,12 +7,14 @@
     builds from the writer's output of [e]; [equiv] = well-typed, same type, same value
     under every well-formed assignment.
 
-    The model has two variants ([SmtSer.variant]): [Cur] mirrors /repo as it is, [Fix] mirrors
-    /repo with patches/0003..0015 applied.  Theorems that hold for both are stated for every
-    [v]; the recorded defects are [_refuted] theorems (and [C14_truncated_panics]) about [Cur];
-    the full-strength statements are theorems about [Fix].  The driver's constant
-    [code_variant] says which variant the checked code is. *)
-From Patronus Require Import SmtParse SmtParseLemmas SmtParseProofs SmtRoundTrip SmtLexProofs SmtValueProofs SmtCmdRoundTrip SmtFixProofs.
+    The model has three variants ([SmtSer.variant]): [Cur] mirrors /repo before the repairs, [Fix]
+    mirrors /repo with patches/0003..0015 (committed), [Fix2] mirrors [Fix] with patches/0016..0018
+    (operands are checked before a builder of [Context] is called).  Theorems that hold for all are
+    stated for every [v]; the recorded defects are [_refuted] theorems (and [C14_truncated_panics])
+    about [Cur], [C14_builder_assertion_refuted] about [Fix]; the repaired behaviour is stated for
+    every [v <> Cur]; the full-strength statement "the reader never panics" is about [Fix2].
+    The driver's constant [code_variant] says which variant the checked code is. *)
+From Patronus Require Import SmtParse SmtParseLemmas SmtParseProofs SmtRoundTrip SmtLexProofs SmtValueProofs SmtCmdRoundTrip SmtFixProofs SmtFix2Proofs.
 Open Scope string_scope.
 Open Scope list_scope.
 Open Scope N_scope.
@@ -31,9 +33,9 @@ Print Assumptions C14_parse_ser.
 (** Repaired code (patches/0013): no condition on numerals; the only keys excluded are names no
     writer can write or that a theory owns. *)
 Theorem C14_parse_ser_fix :
-  forall (top : symtab) (e : expr) (mb : bool),
-    wt e = true -> built e = true -> idx32 e = true -> table_for_fix top e ->
-    parse_expr_toks Fix top (toks_of_sx (ser Fix e mb)) = POk (rt e mb) /\ equiv e (rt e mb).
+  forall (v : variant) (top : symtab) (e : expr) (mb : bool),
+    v <> Cur -> wt e = true -> built e = true -> idx32 e = true -> table_for_fix v top e ->
+    parse_expr_toks v top (toks_of_sx (ser v e mb)) = POk (rt e mb) /\ equiv e (rt e mb).
 Proof. exact parse_ser_fix. Qed.
 Print Assumptions C14_parse_ser_fix.
 
@@ -84,11 +86,11 @@ Proof. exact parse_cmd_ser_lemma. Qed.
 Print Assumptions C14_parse_cmd_ser.
 
 (** Repaired code (patches/0011, 0012, 0015): EVERY command of the writer is read back; the
-    conditions left in [cmd_rt_pre Fix] are those on the expressions and names inside. *)
+    conditions left in [cmd_rt_pre_fix] are those on the expressions and names inside. *)
 Theorem C14_parse_cmd_ser_fix :
-  forall (top : symtab) (c : smt_cmd) (t : sx),
-    cmd_rt_pre Fix top c -> ser_cmd Fix c = Ok t -> parse_command_toks Fix top (toks_of_sx t) = POk (rt_cmd c).
-Proof. exact parse_cmd_ser_fix. Qed.
+  forall (v : variant) (top : symtab) (c : smt_cmd) (t : sx),
+    v <> Cur -> cmd_rt_pre_fix v top c -> ser_cmd v c = Ok t -> parse_command_toks v top (toks_of_sx t) = POk (rt_cmd c).
+Proof. exact parse_cmd_ser_repaired. Qed.
 Print Assumptions C14_parse_cmd_ser_fix.
 
 Theorem C14_cmd_read_back_fix :
@@ -131,12 +133,63 @@ Print Assumptions C14_numeral_symbol_fix.
 (** malformed_is_error, repaired code (patches/0004): every proper prefix, in tokens, of the
     writer's output is reported as an error ... *)
 Theorem C14_malformed_is_error :
-  forall (top : symtab) (e : expr) (mb : bool) (p q : list ltok),
-    wt e = true -> built e = true -> idx32 e = true -> table_for Fix top e ->
-    toks_of_sx (ser Fix e mb) = p ++ q -> q <> [] ->
-    parse_expr_toks Fix top p = PErr.
-Proof. exact truncated_is_error_fix. Qed.
+  forall (v : variant) (top : symtab) (e : expr) (mb : bool) (p q : list ltok),
+    v <> Cur -> wt e = true -> built e = true -> idx32 e = true -> table_for v top e ->
+    toks_of_sx (ser v e mb) = p ++ q -> q <> [] ->
+    parse_expr_toks v top p = PErr.
+Proof. exact truncated_is_error_repaired. Qed.
 Print Assumptions C14_malformed_is_error.
+
+(** malformed_is_error in full, for the code with patches/0016..0018 ([Fix2]): on EVERY text - malformed, truncated,
+    unbalanced, ill-sorted - every entry point of the reader returns a value or an error and never panics;
+    [read_command] returns the end of the input, a command or an error.  (In the model the check of the operands is
+    specified as "an error exactly where a builder would panic"; that the Rust function [check_operands] meets this
+    specification is what the correspondence check tests.  What is proved here is the rest: the lexer never panics,
+    the let-scope stack is never popped empty, sorts of width zero never reach [Context::symbol].) *)
+Theorem C14_never_panics :
+  forall (top : symtab) (s : string), parse_expr_str Fix2 top s <> PPanic.
+Proof. exact parse_expr_fix2_never_panics. Qed.
+Print Assumptions C14_never_panics.
+
+Theorem C14_get_value_never_panics :
+  forall s : string, parse_get_value_response_str Fix2 s <> PPanic.
+Proof. exact parse_get_value_response_fix2_never_panics. Qed.
+Print Assumptions C14_get_value_never_panics.
+
+Theorem C14_unsat_assumptions_never_panics :
+  forall (top : symtab) (s : string), parse_unsat_assumptions_str Fix2 top s <> PPanic.
+Proof. exact parse_unsat_assumptions_fix2_never_panics. Qed.
+Print Assumptions C14_unsat_assumptions_never_panics.
+
+Theorem C14_parse_command_never_panics :
+  forall (top : symtab) (s : string), parse_command_str Fix2 top s <> PPanic.
+Proof. exact parse_command_fix2_never_panics. Qed.
+Print Assumptions C14_parse_command_never_panics.
+
+Theorem C14_read_command_total :
+  forall (top : symtab) (lines : list string),
+    read_command Fix2 top lines <> RcPanic /\ read_command Fix2 top lines <> RcHang.
+Proof. exact read_command_fix2_total. Qed.
+Print Assumptions C14_read_command_total.
+
+(** the machine behind them: from a state whose let-scope stack is well formed it never panics on tokens of the lexer *)
+Theorem C14_machine_never_panics :
+  forall toks stk st o,
+    inv stk st -> ~ In TkLexPanic toks ->
+    match run Fix2 toks stk st o with POk (_, st', _) => st_ok st' | PErr => True | PPanic => False end.
+Proof. exact run_fix2. Qed.
+Print Assumptions C14_machine_never_panics.
+
+(** the inputs on which [Fix] panics, in [Fix2] *)
+Theorem C14_fix2_inputs :
+  parse_expr_str Fix [] "(bvadd (concat #b01 #b1) #b01)" = PPanic /\
+  parse_expr_str Fix2 [] "(bvadd (concat #b01 #b1) #b01)" = PErr /\
+  parse_command_str Fix [] "(define-fun x () (_ BitVec 2) #b1)" = PPanic /\
+  parse_command_str Fix2 [] "(define-fun x () (_ BitVec 2) #b1)" = PErr /\
+  parse_command_str Fix [] "(declare-const x (_ BitVec 0))" = PPanic /\
+  parse_command_str Fix2 [] "(declare-const x (_ BitVec 0))" = PErr.
+Proof. exact fix2_witness. Qed.
+Print Assumptions C14_fix2_inputs.
 
 (** ... on EVERY text the repaired lexer (patches/0005, 0006) produces no panic ... *)
 Theorem C14_lexer_never_panics :
@@ -147,7 +200,7 @@ Print Assumptions C14_lexer_never_panics.
 (** ... and on EVERY text the only panic left in [parse_expr] (patches/0004, 0008) is a debug
     assertion of a builder of [Context] at a closing parenthesis: the machine has consumed [pre],
     is in the state [(stk, st)], and reducing the innermost open group panics in [parse_pattern]
-    (or the let-scope stack is empty).  This is the finding that is NOT patched. *)
+    (or the let-scope stack is empty).  This is the finding repaired by patches/0016..0018. *)
 Theorem C14_malformed_panics_only_in_builders :
   forall (top : symtab) (s : string),
     parse_expr_str Fix top s = PPanic ->
